@@ -98,30 +98,30 @@ def systemEnvCheck (stateGiven chemGiven : Bool) (nspecies nenv : Nat) (cellEnv 
 
 /-! ### Positions, species, state access -/
 
-inductive Space where
+inductive VSpace where
   | grid (g : GridShape)
   | graph (n : Nat)
   deriving Repr
 
-def Space.size : Space → Nat
+def VSpace.size : VSpace → Nat
   | .grid g => g.size
   | .graph n => n
 
-inductive Pos where
+inductive VPos where
   | num (p : Int)
   | xyz (x y z : Int)
   deriving Repr
 
 /-- `space.get_cell_index(position)` -/
-def Space.cellIndex : Space → Pos → Res Int
+def VSpace.cellIndex : VSpace → VPos → Res Int
   | .grid g, .num p => pyCellIndexOfNum g p
   | .grid g, .xyz x y z => pyCellIndexOfCoords g x y z
-  | .graph n, .num p => if graphIndexBad n p then .error .outOfRange else .ok p
+  | .graph n, .num p => if graphNodeIndexBad n p then .error .outOfRange else .ok p
   | .graph _, .xyz _ _ _ => .error .typeError        -- `int(tuple)`
 
 /-- the position check of a positional accessor of the space classes (`get_cell_env`, `get_cell_vol`,
 `get_neighbors`, …): the cell index when the method validates its argument, nothing when it does not -/
-def Space.accessorCheck (sp : Space) (accessor : String) (p : Pos) : Res (Option Int) :=
+def VSpace.accessorCheck (sp : VSpace) (accessor : String) (p : VPos) : Res (Option Int) :=
   let guards := match sp with
     | .grid _ => gridAccessorGuards
     | .graph _ => graphAccessorGuards
@@ -142,13 +142,13 @@ def firstIndex (labels : List (Option Label)) (l : Label) : Option Nat :=
   if i < labels.length then some i else none
 
 /-- `network.get_species_index(species)` : `None` when there is no such species -/
-def speciesIndex (labels : List (Option Label)) : SpeciesRef → Option Int
+def vSpeciesIndex (labels : List (Option Label)) : SpeciesRef → Option Int
   | .idx i => if speciesIndexOk labels.length i then some i else none
   | .label l => (firstIndex labels l).map Int.ofNat
 
 /-- `RDSystem.get_state_index(species, position)` (`None * size` raises) -/
-def stateIndexOf (labels : List (Option Label)) (sp : Space) (s : SpeciesRef) (p : Pos) : Res Int :=
-  match speciesIndex labels s with
+def stateIndexOf (labels : List (Option Label)) (sp : VSpace) (s : SpeciesRef) (p : VPos) : Res Int :=
+  match vSpeciesIndex labels s with
   | none => .error .typeError
   | some si =>
     match sp.cellIndex p with
@@ -156,24 +156,24 @@ def stateIndexOf (labels : List (Option Label)) (sp : Space) (s : SpeciesRef) (p
     | .ok ci => .ok (stateIndex sp.size si ci)
 
 /-- `get_state` / `get_chemostat` on a flat array -/
-def getEntry {α} (arr : List α) (labels : List (Option Label)) (sp : Space) (s : SpeciesRef) (p : Pos) : Res α :=
+def getEntry {α} (arr : List α) (labels : List (Option Label)) (sp : VSpace) (s : SpeciesRef) (p : VPos) : Res α :=
   match stateIndexOf labels sp s p with
   | .error e => .error e
   | .ok i => if 0 ≤ i then (match arr[i.toNat]? with | some v => .ok v | none => .error .outOfRange) else .error .outOfRange
 
 /-- `set_state` / `set_chemostat` on a flat array -/
-def setEntry {α} (arr : List α) (labels : List (Option Label)) (sp : Space) (s : SpeciesRef) (p : Pos) (v : α) : Res (List α) :=
+def setEntry {α} (arr : List α) (labels : List (Option Label)) (sp : VSpace) (s : SpeciesRef) (p : VPos) (v : α) : Res (List α) :=
   match stateIndexOf labels sp s p with
   | .error e => .error e
   | .ok i => if 0 ≤ i ∧ i.toNat < arr.length then .ok (arr.set i.toNat v) else .error .outOfRange
 
 /-! ### Quantity fields -/
 
-def fieldDim (field : String) : Option Dim := (fieldDims.lookup field).map fun (a, b, c) => ⟨a, b, c⟩
+def fieldDimOf (field : String) : Option Dim := (fieldDims.lookup field).map fun (a, b, c) => ⟨a, b, c⟩
 
 /-- setter of a quantity field given one value (all of them go through `UnitValue(v, Units(sys, dim), convert=False)`) -/
 def setField (field : String) (sys : Sys) (v : Scalar) : Res UVal :=
-  match fieldDim field with
+  match fieldDimOf field with
   | none => .error .notImplemented
   | some d => processScalar sys d v
 
